@@ -22,7 +22,7 @@ def _post(R, lines, diffs):
     R.coverage["race_detector_signatures"] = sigs
     R.coverage["race_build"] = _STATE.get("race", False)
     if n:
-        R.notes.append("race detector (supporting evidence only; not part of the proved claim): %d report(s): %s" % (n, sigs))
+        R.notes.append("race detector: %d report(s): %s" % (n, sigs))
 
 _STATE = {}
 
@@ -61,10 +61,14 @@ CONFIG = dict(
              "concurrent real workloads over loopback (connect, disconnect, send, broadcast, queries, incoming peers, shutdown at random "
              "moments), events taken from the code's own log lines (strand.Debug), callbacks and API returns with goroutine identity; "
              "the driver rejects a trace that is not a run of the model.",
-        note="NOT claimed: absence of Go-memory-model data races in general, the race detector's verdict, variables captured by request "
-             "closures, per-connection goroutines/sockets, blocking in Close, termination under fairness. The harness is built with "
-             "-race; reports whose frames are pool-map accessors fail the check, all other reports are recorded as supporting evidence "
-             "only (two such races outside the model are known, see notes/status/C32.md).",
+        note="NOT claimed by the proof: absence of Go-memory-model data races in general, variables captured by request closures, "
+             "per-connection goroutines/sockets, blocking in Close, termination under fairness. The harness is built with -race "
+             "(needs cgo + a C compiler; if that build fails the check falls back to a plain build and says so in the evidence: "
+             "race_build=false). EVERY race report fails the workload it occurred in: a report whose frames are pool-map accessors is a "
+             "violation of the proved mutual exclusion; the two known races outside the model are listed in known_findings.json as F20 "
+             "(a strand call returns on quit while its function still writes variables the caller reads) and F21 (Connection.Close "
+             "replaces conn.Buffer under readLoop) and print KNOWN-FINDING; any other report is a VIOLATION with the report's frames in "
+             "the replay. A panic of the pool's own goroutines (harness process dies) is reported as VIOLATION with the stack.",
         technique="Lean 4 invariant proof over a small-step concurrent model + static extraction + runtime trace conformance (monitor proved sound)",
     ),
     translators=["c32facts"],
@@ -78,7 +82,7 @@ CONFIG = dict(
         "hand-written model Sky/C32/Model.lean of strand.Strand / processStrand / Shutdown / newConnection / disconnect (tie H by trace "
         "conformance: event extraction from log lines + callbacks in harness/c32, monitor Sky.C32.Mon proved to accept all model traces)",
         "tools/extract/c32facts: syntactic call-graph extraction over pool.go (calls through `pool.` only) and shape checks",
-        "Go race detector (supporting evidence; only pool-map races affect the verdict)",
+        "Go race detector: any report fails the workload; F20/F21 signatures are known findings",
     ],
     assumptions=[
         "Go channel semantics: unbuffered send/receive is a rendezvous; a closed channel is always ready; select picks any ready case",
